@@ -148,6 +148,7 @@ func c09ExtFacts(e *ext) {
 	}
 	c09DeepCopyFacts(e)
 	c09ValidFacts(e)
+	c09PodRequestFacts(e)
 	// 2. the resources each plugin owns
 	for _, pl := range [][2]string{{"batch", "pkg/slo-controller/noderesource/plugins/batchresource"}, {"mid", "pkg/slo-controller/noderesource/plugins/midresource"}} {
 		var names []string
@@ -556,4 +557,66 @@ func c09ValidFacts(e *ext) {
 		parts[i] = leanStr(c)
 	}
 	fmt.Fprintf(&e.out, "def strategyValidConds : List String := [%s]\n", strings.Join(parts, ", "))
+}
+
+// ---- extension 8: the shared pod-request helper ----
+
+// c09PodRequestFacts renders every resourcehelper.PodRequests call of util.GetPodRequest with the fields set in its options
+// literal ("PodRequests{}" = the defaults: pod overhead INCLUDED, init containers and pod-level resources honoured), and counts
+// the util.GetPodRequest call sites of the two calculators.
+func c09PodRequestFacts(e *ext) {
+	calls := []string{}
+	fd := e.funcDecl("pkg/util", "", "GetPodRequest")
+	if fd == nil {
+		e.fail("util.GetPodRequest not found")
+	} else {
+		ast.Inspect(fd.Body, func(n ast.Node) bool {
+			ce, ok := n.(*ast.CallExpr)
+			if !ok {
+				return true
+			}
+			sel, ok := ce.Fun.(*ast.SelectorExpr)
+			if !ok || sel.Sel.Name != "PodRequests" {
+				return true
+			}
+			opts := "?"
+			if len(ce.Args) == 2 {
+				if cl, ok := ce.Args[1].(*ast.CompositeLit); ok {
+					kv := []string{}
+					for _, el := range cl.Elts {
+						if k, ok := el.(*ast.KeyValueExpr); ok {
+							kv = append(kv, c09Render(k.Key)+":"+c09Render(k.Value))
+						} else {
+							kv = append(kv, "?")
+						}
+					}
+					opts = "{" + strings.Join(kv, ",") + "}"
+				}
+			}
+			calls = append(calls, "PodRequests"+opts)
+			return true
+		})
+	}
+	q := make([]string, len(calls))
+	for i, c := range calls {
+		q[i] = leanStr(c)
+	}
+	fmt.Fprintf(&e.out, "def getPodRequestCalls : List String := [%s]\n", strings.Join(q, ", "))
+	for _, x := range [][3]string{{"pkg/slo-controller/noderesource/plugins/batchresource", "calculateOnNode", "Node"},
+		{"pkg/slo-controller/noderesource/plugins/batchresource", "calculateOnNUMALevel", "NUMA"},
+		{"pkg/slo-controller/noderesource/plugins/midresource", "getUnallocated", "Mid"}} {
+		cnt := 0
+		f := e.funcDecl(x[0], "Plugin", x[1])
+		if f == nil {
+			e.fail("%s.%s not found", x[0], x[1])
+		} else {
+			ast.Inspect(f.Body, func(n ast.Node) bool {
+				if ce, ok := n.(*ast.CallExpr); ok && c09Render(ce.Fun) == "util.GetPodRequest" {
+					cnt++
+				}
+				return true
+			})
+		}
+		fmt.Fprintf(&e.out, "def getPodRequestSites%s : Nat := %d\n", x[2], cnt)
+	}
 }
